@@ -503,3 +503,258 @@ func ruleNAV4(p *Program) *RuleResult {
 	r.floor("hypotheses", 50)
 	return r
 }
+
+// NAV1: the predicate unwrapOneof uses to recognise a choice wrapper holds for
+// every choice wrapper of the schema; the copy in patch agrees.
+func ruleNAV1(p *Program) *RuleResult {
+	r := newResult("NAV1")
+	cw, err := choiceWrappers(p)
+	if err != nil {
+		return r.anchorFail(err)
+	}
+	r.count("schema_choice_wrappers", len(cw))
+	type pred struct {
+		kind string // "oneof", "suffix", "equals"
+		c    string
+	}
+	extract := func(fn *ssa.Function) ([]pred, string) {
+		var out []pred
+		for _, b := range fn.Blocks {
+			for _, ins := range b.Instrs {
+				c, ok := ins.(*ssa.Call)
+				if !ok {
+					continue
+				}
+				cc := c.Common()
+				if cc.IsInvoke() && namedName(cc.Value.Type()) == "OneofDescriptors" && cc.Method.Name() == "ByName" {
+					if cv, ok := stripConv(cc.Args[0]).(*ssa.Const); ok && cv.Value != nil {
+						out = append(out, pred{"oneof", constant.StringVal(cv.Value)})
+					}
+				}
+				if sc := cc.StaticCallee(); sc != nil && sc.RelString(nil) == "strings.HasSuffix" {
+					if s, ok := constString(cc.Args[1]); ok {
+						out = append(out, pred{"suffix", s})
+					}
+				}
+			}
+		}
+		if len(out) == 0 {
+			return nil, "no recognised discriminator (Oneofs().ByName(const) / strings.HasSuffix(name, const))"
+		}
+		return out, ""
+	}
+	var first []pred
+	for i, loc := range [][3]string{{"fhirpath/internal/expr", "FieldExpression", "unwrapOneof"}, {"fhirpath/patch", "Expression", "unwrapOneof"}} {
+		fn, err := p.Method(loc[0], loc[1], loc[2])
+		if err != nil {
+			return r.anchorFail(err)
+		}
+		preds, why := extract(fn)
+		key := short(fn) + "|choice discriminator"
+		if preds == nil {
+			r.undecided(key, "choice discriminator of "+short(fn), p.pos(fn.Pos()), why)
+			continue
+		}
+		missed := 0
+		var example string
+		for _, w := range cw {
+			hit := false
+			for _, pr := range preds {
+				switch pr.kind {
+				case "oneof":
+					if pr.c == w.OneofName {
+						hit = true
+					}
+				case "suffix":
+					if strings.HasSuffix(protoMessageName(w.Name), pr.c) {
+						hit = true
+					}
+				}
+			}
+			if !hit {
+				missed++
+				if example == "" {
+					example = w.Name
+				}
+			}
+		}
+		desc := fmt.Sprintf("%s recognises a choice wrapper by %v", short(fn), preds)
+		if missed == 0 {
+			r.ok(key, desc+fmt.Sprintf(": holds for all %d choice wrappers of the schema", len(cw)), p.pos(fn.Pos()), "EN-SCHEMA: structs with a protobuf_oneof:\"choice\" field", true)
+		} else {
+			r.bad(key, desc+fmt.Sprintf(": misses %d of %d choice wrappers (e.g. %s)", missed, len(cw), example), p.pos(fn.Pos()), "choice elements of the missed wrappers evaluate to the wrapper message instead of the chosen value")
+		}
+		if i == 0 {
+			first = preds
+		} else if fmt.Sprint(first) != fmt.Sprint(preds) {
+			r.bad("unwrapOneof|siblings", fmt.Sprintf("the two copies of unwrapOneof disagree: %v vs %v", first, preds), p.pos(fn.Pos()), "navigation and patch target discovery unwrap different sets of elements")
+		} else {
+			r.ok("unwrapOneof|siblings", "the expr and patch copies of unwrapOneof use the same discriminator", p.pos(fn.Pos()), "sibling agreement", false)
+		}
+	}
+	// TypeOf and AsExpression look through the same oneof
+	r.floor("schema_choice_wrappers", 150)
+	return r
+}
+
+// NAV2: identifier text obtained from the parse tree passes a delimiter-stripping
+// sanitiser before it is used as a field name, type name, function-table key or
+// variable name.
+func isSanitiser(fn *ssa.Function, depth int) bool {
+	if fn == nil || depth > 2 {
+		return false
+	}
+	name := fn.RelString(nil)
+	if strings.HasSuffix(name, "system.ParseString") {
+		return true
+	}
+	if !inRepoFn(fn) {
+		return false
+	}
+	// an in-repo helper that strips a leading/trailing ` or ' (slice [1:len-1]
+	// guarded by comparisons with the delimiter, or strings.Trim* with it)
+	hasDelimCmp, hasSlice := false, false
+	for _, b := range fn.Blocks {
+		for _, ins := range b.Instrs {
+			switch x := ins.(type) {
+			case *ssa.BinOp:
+				if c, ok := x.Y.(*ssa.Const); ok && c.Value != nil && c.Value.Kind() == constant.Int {
+					if v, _ := constant.Int64Val(c.Value); v == '`' {
+						hasDelimCmp = true
+					}
+				}
+			case *ssa.Slice:
+				hasSlice = true
+			case *ssa.Call:
+				if sc := x.Common().StaticCallee(); sc != nil {
+					if strings.HasPrefix(sc.RelString(nil), "strings.Trim") && len(x.Common().Args) == 2 {
+						if s, ok := constString(x.Common().Args[1]); ok && strings.Contains(s, "`") {
+							return true
+						}
+					}
+					if isSanitiser(sc, depth+1) {
+						return true
+					}
+				}
+			}
+		}
+	}
+	return hasDelimCmp && hasSlice
+}
+
+// taintedByGetText: does v derive from a GetText() call without passing a sanitiser?
+func taintedByGetText(v ssa.Value, depth int, seen map[ssa.Value]bool) (bool, string) {
+	if depth > 10 || seen[v] {
+		return false, ""
+	}
+	seen[v] = true
+	switch x := v.(type) {
+	case *ssa.Call:
+		cc := x.Common()
+		if cc.IsInvoke() && cc.Method.Name() == "GetText" {
+			return true, "GetText() of " + typeShort(cc.Value.Type())
+		}
+		sc := cc.StaticCallee()
+		if sc != nil && isSanitiser(sc, 0) {
+			return false, ""
+		}
+		if sc != nil && (strings.HasPrefix(sc.RelString(nil), "strings.") || inRepoFn(sc)) {
+			for _, a := range cc.Args {
+				if t, w := taintedByGetText(a, depth+1, seen); t {
+					return true, w
+				}
+			}
+		}
+	case *ssa.Phi:
+		for _, e := range x.Edges {
+			if t, w := taintedByGetText(e, depth+1, seen); t {
+				return true, w
+			}
+		}
+	case *ssa.ChangeType:
+		return taintedByGetText(x.X, depth+1, seen)
+	case *ssa.Convert:
+		return taintedByGetText(x.X, depth+1, seen)
+	case *ssa.MakeInterface:
+		return taintedByGetText(x.X, depth+1, seen)
+	case *ssa.Extract:
+		return taintedByGetText(x.Tuple, depth+1, seen)
+	case *ssa.UnOp:
+		if al, ok := x.X.(*ssa.Alloc); ok {
+			for _, ref := range *al.Referrers() {
+				if st, ok := ref.(*ssa.Store); ok && st.Addr == ssa.Value(al) {
+					if t, w := taintedByGetText(st.Val, depth+1, seen); t {
+						return true, w
+					}
+				}
+			}
+		}
+	case *ssa.BinOp:
+		if t, w := taintedByGetText(x.X, depth+1, seen); t {
+			return true, w
+		}
+		return taintedByGetText(x.Y, depth+1, seen)
+	}
+	return false, ""
+}
+
+func ruleNAV2(p *Program) *RuleResult {
+	r := newResult("NAV2")
+	vm, err := visitorMethods(p)
+	if err != nil {
+		return r.anchorFail(err)
+	}
+	sinkFields := map[string]bool{"FieldName": true, "Type": true, "Identifier": true}
+	var names []string
+	for n := range vm {
+		names = append(names, n)
+	}
+	sort.Strings(names)
+	for _, n := range names {
+		top := vm[n]
+		if !strings.HasSuffix(fnPkgPath(top), "/fhirpath/internal/parser") {
+			continue
+		}
+		fns := append([]*ssa.Function{top}, top.AnonFuncs...)
+		for _, fn := range fns {
+			for _, b := range fn.Blocks {
+				for _, ins := range b.Instrs {
+					var sink ssa.Value
+					var what string
+					switch x := ins.(type) {
+					case *ssa.Store:
+						if fa, ok := x.Addr.(*ssa.FieldAddr); ok && sinkFields[fieldName(fa)] && strings.Contains(typeShort(fa.X.Type()), "expr.") {
+							if bt, ok := x.Val.Type().Underlying().(*types.Basic); ok && bt.Info()&types.IsString != 0 {
+								sink, what = x.Val, typeShort(fa.X.Type())+"."+fieldName(fa)
+							}
+						}
+					case *ssa.Lookup:
+						if strings.HasSuffix(x.X.Type().String(), "funcs.FunctionTable") {
+							sink, what = x.Index, "function table key"
+						}
+					case *ssa.Call:
+						if sc := x.Common().StaticCallee(); sc != nil && (sc.Name() == "NewTypeSpecifier" || sc.Name() == "NewQualifiedTypeSpecifier") {
+							// arguments come from VisitQualifiedIdentifier's result: checked at its return
+						}
+					case *ssa.Return:
+						if strings.HasPrefix(short(fn), "(*fhirpath/internal/parser.FHIRPathVisitor).VisitQualifiedIdentifier$") && len(x.Results) == 1 {
+							sink, what = x.Results[0], "qualified identifier component"
+						}
+					}
+					if sink == nil {
+						continue
+					}
+					r.count("identifier_sinks", 1)
+					key := short(fn) + "|" + what
+					if t, w := taintedByGetText(sink, 0, map[ssa.Value]bool{}); t {
+						r.bad(key, what+" receives raw token text ("+w+")", p.instrPos(ins), "a delimited identifier (`name`) or quoted name keeps its delimiters and can never resolve")
+					} else {
+						r.ok(key, what+" is unquoted or not token text", p.instrPos(ins), "taint analysis: every GetText() flow passes a delimiter-stripping sanitiser", true)
+					}
+				}
+			}
+		}
+	}
+	r.floor("identifier_sinks", 4)
+	return r
+}
